@@ -38,6 +38,7 @@ type Dev struct {
 	EncAnswer      string // server: "" honest, "NO", "YES"
 	ECDH           string // "" honest, "omit", "truncate", "random", "garbage"
 	NoCommonCipher bool
+	AdvertiseExtra string // server: extra method names appended to the advertised AuthMethodsList
 	SelectBit      int    // server: 0 honest; otherwise the method bit(s) returned to the client
 	SelectZero     bool   // server: answer 0 to the client's bitmask
 	ReturnCode     string // server post-auth ReturnCode ("" = AUTHORIZED)
@@ -197,7 +198,14 @@ func Server(ctx context.Context, st *stream.Stream, o ServerOpts) (rec *Record) 
 		chosen = o.Methods[0]
 	}
 	_ = sad.Set("AuthMethods", chosen)
-	_ = sad.Set("AuthMethodsList", strings.Join(o.Methods, ","))
+	advertised := strings.Join(o.Methods, ",")
+	if o.Dev.AdvertiseExtra != "" {
+		if advertised != "" {
+			advertised += ","
+		}
+		advertised += o.Dev.AdvertiseExtra
+	}
+	_ = sad.Set("AuthMethodsList", advertised)
 	cipher := "AES"
 	if o.Dev.NoCommonCipher {
 		cipher = "BLOWFISH"
